@@ -126,7 +126,7 @@ def gen(s: Choices, cls, cfg):
         sc["n_threads"] = s.weighted([(2, 2), (1, 1), (2, 3), (1, 4), (1, None)])
         sc["cpu"] = s.weighted([(4, 4), (2, 1), (1, 2), (1, 16)])
         sc["elems"] = s.weighted([(3, None), (2, 1), (2, 2)])
-        sc["order"] = s.weighted([(3, "C"), (1, "F")])
+        sc["order"] = s.weighted([(3, "C"), (1, "F"), (1, "sliced")])
     elif kind == "real":
         sc["n"] = [2_000_000, 3_999_999, 4_000_000, 6_000_001, 8_000_000][s.draw(5)]
         sc["nullfrac"] = s.weighted([(2, 0), (2, 1), (1, 2)])  # none / first block all null / scattered
@@ -145,14 +145,18 @@ def gen(s: Choices, cls, cfg):
             sc["b"] = [s.draw(7) for _ in range(c)]
             sc["numba_threads"] = 1 + s.draw(2)
         elif func == "bools_to_categorical":
-            r, c = s.draw(7), 1 + s.draw(4)
+            # column counts around the bit-width switch-over points (8, 16, 32) included
+            r, c = s.draw(7), s.weighted([(6, 1 + s.draw(4)), (1, 7), (1, 8), (1, 9), (1, 15), (1, 16), (1, 17), (1, 31), (1, 32), (1, 33)])
             sc["shape"] = [r, c]
             sc["bits"] = [s.draw(2) for _ in range(r * c)]
             sc["numba_threads"] = 1 + s.draw(2)
         else:
             nb = 1 + s.draw(4)
             sc["is_int"] = bool(s.draw(2))
-            sc["bins"] = sorted(set(s.draw(12) for _ in range(nb)))
+            bins = list(dict.fromkeys(s.draw(12) for _ in range(nb)))
+            sc["bins"] = bins if s.chance(1, 3) else sorted(bins)  # also unsorted bins
+            sc["offset"] = s.weighted([(3, 0), (2, 5), (1, 11)])  # shifts edges and values below zero
+            sc["int_x_float_bins"] = (not sc["is_int"]) and s.chance(1, 4)
             sc["x"] = [s.draw(14) for _ in range(1 + s.draw(8))]
             sc["nulls"] = [s.chance(1, 6) for _ in sc["x"]]
             sc["series"] = bool(s.draw(2))
@@ -279,6 +283,10 @@ def execute(sc, sched: Choices, cls, cfg):
         arr = _arr(sc["idx"], dtype, False).reshape(r, c)
         if sc["order"] == "F":
             arr = np.asfortranarray(arr)
+        elif sc["order"] == "sliced":
+            big = np.zeros((2 * r + 1, 2 * c + 1), dtype=arr.dtype)
+            big[1::2, 1::2][:r, :c] = arr
+            arr = big[1::2, 1::2][:r, :c]  # a non-contiguous view
         axis = sc["axis"]
     else:
         rng = np.random.RandomState(sc["dseed"])
@@ -426,13 +434,18 @@ def _run_helper(sc, rec, add):
             add("definition", "raises_vs_returns", exp, f"{type(e).__name__}: {e}", exc=type(e).__name__)
     else:
         is_int = sc["is_int"]
+        off = sc.get("offset", 0)
         if is_int:
-            bins = np.array(sc["bins"], dtype="int64")
-            x = np.array(sc["x"], dtype="int64")
+            bins = np.array(sc["bins"], dtype="int64") - off
+            x = np.array(sc["x"], dtype="int64") - off
+            nulls = [False] * len(x)
+        elif sc.get("int_x_float_bins"):
+            bins = (np.array(sc["bins"], dtype="float64") - off) / 2.0
+            x = np.array(sc["x"], dtype="int64") - off
             nulls = [False] * len(x)
         else:
-            bins = np.array(sc["bins"], dtype="float64") / 4.0
-            x = np.array(sc["x"], dtype="float64") / 4.0
+            bins = (np.array(sc["bins"], dtype="float64") - off) / 4.0
+            x = (np.array(sc["x"], dtype="float64") - off) / 4.0
             nulls = sc["nulls"]
             x[np.array(nulls, dtype=bool)] = np.nan
         X = pd.Series(x, index=np.arange(len(x)) + 5) if sc["series"] else x
